@@ -12,19 +12,19 @@ import (
 // BtEntry is one backtrace entry (an argument of a backtrace-point call) with the lines its traces go through.
 type BtEntry struct {
 	SinkLine int
-	ArgIndex int            // SSA argument index in the call
-	Lines    map[int]bool   // lines of all nodes of all traces of this entry
+	ArgIndex int          // SSA argument index in the call
+	Lines    map[int]bool // lines of all nodes of all traces of this entry
 	NTraces  int
 	MaxLen   int
 }
 
 // BtOutcome is the canonicalised result of backtrace.Analyze.
 type BtOutcome struct {
-	Entries []BtEntry
-	Err     error
-	Panic   string
-	Invalid string // first structural problem found in a trace ("" if none)
-	Links   map[string]int // statistics: kinds of consecutive node pairs
+	Entries  []BtEntry
+	Err      error
+	Panic    string
+	Invalid  string         // first structural problem found in a trace ("" if none)
+	Links    map[string]int // statistics: kinds of consecutive node pairs
 	Unlinked map[string]int
 }
 
